@@ -62,8 +62,9 @@ func (t *refTree) names() []string {
 }
 
 type c17Env struct {
-	srv     *jrpc2.Server
-	problem []string
+	srv      *jrpc2.Server
+	problem  []string
+	assigned []string // "<inbound id>/<method>" for every Assign call, in order
 }
 
 // build constructs the real assigner for a reference tree.
@@ -101,6 +102,8 @@ func (c checkingAssigner) Assign(ctx context.Context, method string) jrpc2.Handl
 	in := jrpc2.InboundRequest(ctx)
 	if in == nil || in.Method() != method {
 		c.e.problem = append(c.e.problem, fmt.Sprintf("InboundRequest(ctx) in Assign(%q) unavailable or for another method", method))
+	} else {
+		c.e.assigned = append(c.e.assigned, in.ID()+"/"+method)
 	}
 	return c.inner.Assign(ctx, method)
 }
@@ -191,6 +194,7 @@ func c17Dispatch(tree *refTree, disable bool, names []string, label string) *Sce
 				}
 				results := make([]res, len(chunk))
 				env := &c17Env{}
+				batchProblem := ""
 				var gotNames []string
 				x := vs.Run(nil, func() {
 					cch, sch := channel.Direct()
@@ -209,6 +213,41 @@ func c17Dispatch(tree *refTree, disable bool, names []string, label string) *Sce
 							results[i].result = rsp.ResultString()
 						}
 					}
+					if start == 0 {
+						// a batch repeating method names: the assigner is consulted for every request, with that request
+						var plain []string
+						for _, n := range tree.names() {
+							if !strings.HasPrefix(n, "rpc.") && n != "" {
+								plain = append(plain, n)
+							}
+						}
+						if len(plain) >= 2 {
+							a, b := plain[0], plain[1]
+							env.assigned = nil
+							rsps, err := cli.Batch(context.Background(), []jrpc2.Spec{{Method: a}, {Method: a}, {Method: a, Notify: true}, {Method: b}, {Method: "zz.none"}, {Method: a}})
+							vs.AwaitQuiescence()
+							if err != nil || len(rsps) != 5 {
+								batchProblem = fmt.Sprintf("batch repeating %q failed: %v (%d responses)", a, err, len(rsps))
+							} else {
+								want := []string{"/" + a}
+								for i, m := range []string{a, a, b, "zz.none", a} {
+									want = append(want, rsps[i].ID()+"/"+m)
+								}
+								got := append([]string(nil), env.assigned...)
+								sort.Strings(want)
+								sort.Strings(got)
+								if strings.Join(got, " ") != strings.Join(want, " ") {
+									batchProblem = fmt.Sprintf("batch [%s %s %s(note) %s zz.none %s]: the assigner was consulted for (inbound id/method) %q, want once per request %q", a, a, a, b, a, got, want)
+								}
+								wantTag := fmt.Sprintf("%q", tree.resolve(a)+"|"+a)
+								for _, i := range []int{0, 1, 4} {
+									if rsps[i].ResultString() != wantTag {
+										batchProblem = fmt.Sprintf("batch member %d (%s) answered %s, want %s", i, a, rsps[i].ResultString(), wantTag)
+									}
+								}
+							}
+						}
+					}
 					cli.Close()
 					srv.WaitStatus()
 				})
@@ -216,6 +255,10 @@ func c17Dispatch(tree *refTree, disable bool, names []string, label string) *Sce
 				if x.Outcome != "ok" {
 					r.Fail("G1", fmt.Sprintf("names %d..%d", start, end), "run ended with "+x.Outcome+" "+firstLine(x.Detail), "")
 					continue
+				}
+				if batchProblem != "" {
+					Hit("C17.R2")
+					r.Fail("C17.R2", tree.Name, batchProblem, "")
 				}
 				for _, p := range env.problem {
 					r.Fail("C17.R2", tree.Name, p, "")
